@@ -17,7 +17,7 @@ CHECKS = {
          "Trusts the documented access schedule in internal/ref; pokes through Mapper.Write between CPU cycles stand for hardware changing memory between cycles.",
          "DESIGN.md §4 C03"),
  "C04": ("lock-step trace monitor with a reference interrupt controller; exhaustive IME x IE x IF boundary states, all short instruction sequences with requests injected at every machine-cycle offset, generated programs and interrupt ROMs",
-         "At every instruction boundary of every run the reference decides dispatch/no dispatch; vector, pushed return address, IME, the IF bit cleared, IE/IF frame condition and the 5-cycle length are compared. All 2x32x32 boundary states x 9 following instructions and all sequences up to length 4 (quick) / 5 (thorough) over {EI, DI, RETI, NOP, INC B, LD A,n, LDH (IF),A, LDH (IE),A} with requests at every cycle offset are executed.",
+         "At every instruction boundary of every run the reference decides dispatch/no dispatch; vector, pushed return address, IME, the IF bit cleared, IE/IF frame condition and the 5-cycle length are compared. All 2x32x32 boundary states x 9 following instructions and all sequences up to length 4 (quick) / 5 (thorough) over {EI, DI, RETI, NOP, INC B, LD A,n, LDH (IF),A, LDH (IE),A, JR cc,+0, SWAP A} with requests at every cycle offset are executed.",
          "Requests raised during the five dispatch cycles may be the one served (either accepted); EI;HALT and EI-with-IME-already-set followed by an immediate dispatch are outside the statement.",
          "DESIGN.md §4 C04"),
  "C05": ("lock-step trace monitor with a reference HALT/halt-bug model; HALT x IME x pending x every following opcode x idle length 0..48, requests through the request path, the real timer, and unenabled requests",
